@@ -44,7 +44,15 @@ depth for '#/' targets, wildcard levels of the request accepted only where the t
 wildcard or beyond its depth — on every target the key format can express (last level before
 an optional '#' literal, or an exact all-'+' target), the compared 32-bit hashes not colliding.
 The targets excluded by `hsup` are the recorded findings C03.target-trailing-plus and
-C03.target-plus-hash (under-permission). -/
+C03.target-plus-hash (under-permission).
+Two further hypotheses are needed (added when the proof was done):
+`hrh` — the last level of the request is not itself "#": the code cannot tell such a level from
+the trailing wildcard marker, and without it the statement is false (exact target `+/`, request
+levels `["#"]` with `rw = false`: refused by the code, covered by the spec);
+`hcolp` — for an exact target made of '+' levels only, no literal bit is set, the code takes the
+request's own depth as `maxDepth`, and the depth check is left to comparing the hash of
+"+/+/…/+" (request depth) with the target hash; `hcol` speaks only of strings of the target's
+depth, so that one further pair is assumed not to collide. -/
 theorem validate_covers (k : Key) (tp : List Bytes) (tw : Bool) (rp : List Bytes) (rw : Bool) (ch : Channel)
     (hpath : k.targetPath = pathOf tp tw) (hhash : k.target = Hash.hashOf (joinSlash tp))
     (hch : ch.channel = chanOf rp rw)
@@ -52,9 +60,41 @@ theorem validate_covers (k : Key) (tp : List Bytes) (tw : Bool) (rp : List Bytes
     (hlen : tp.length ≤ 23) (hnh : hashSym ∉ tp)
     (hsup : tp ≠ [] ∧ (tp.getLast? ≠ some plus ∨ (tw = false ∧ ∀ p ∈ tp, p = plus)))
     (hcol : ∀ m : List Bytes, (∀ p ∈ m, sep ∉ p) → m.length = tp.length →
-              Hash.hashOf (joinSlash m) = Hash.hashOf (joinSlash tp) → joinSlash m = joinSlash tp) :
+              Hash.hashOf (joinSlash m) = Hash.hashOf (joinSlash tp) → joinSlash m = joinSlash tp)
+    (hrh : rp.getLast? ≠ some hashSym)
+    (hcolp : (tw = false ∧ ∀ p ∈ tp, p = plus) →
+              Hash.hashOf (joinSlash (List.replicate rp.length plus)) = Hash.hashOf (joinSlash tp) →
+              rp.length = tp.length) :
     k.validateChannel ch = coversParts tp tw rp rw :=
-  Security.validate_covers k tp tw rp rw ch hpath hhash hch htw hrw hrne hlen hnh hsup hcol
+  Security.validate_covers k tp tw rp rw ch hpath hhash hch htw hrw hrne hlen hnh hsup hcol hrh hcolp
+
+/-- The same with non-collision hypotheses that mention only the ONE pair of strings the code
+hashes and compares for this request (the masked request cut to the target's depth against the
+target) — hypotheses a concrete request can actually satisfy; `validate_covers` above asks for
+non-collision against every string of the target's depth, which no 32-bit hash provides. -/
+theorem validate_covers_exact (k : Key) (tp : List Bytes) (tw : Bool) (rp : List Bytes) (rw : Bool) (ch : Channel)
+    (hpath : k.targetPath = pathOf tp tw) (hhash : k.target = Hash.hashOf (joinSlash tp))
+    (hch : ch.channel = chanOf rp rw)
+    (htw : ∀ p ∈ tp, levelWf p) (hrw : ∀ p ∈ rp, levelWf p) (hrne : rp ≠ [])
+    (hlen : tp.length ≤ 23) (hnh : hashSym ∉ tp)
+    (hsup : tp ≠ [] ∧ (tp.getLast? ≠ some plus ∨ (tw = false ∧ ∀ p ∈ tp, p = plus)))
+    (hcol : ∀ m : List Bytes, maskParts (pathOf tp tw) rp 0 = some m →
+              (∀ p ∈ m.take tp.length, sep ∉ p) → (m.take tp.length).length = tp.length →
+              Hash.hashOf (joinSlash (m.take tp.length)) = Hash.hashOf (joinSlash tp) →
+              joinSlash (m.take tp.length) = joinSlash tp)
+    (hrh : rw = false → rp.getLast? ≠ some hashSym)
+    (hcolp : (tw = false ∧ ∀ p ∈ tp, p = plus) →
+              Hash.hashOf (joinSlash (List.replicate rp.length plus)) = Hash.hashOf (joinSlash tp) →
+              rp.length = tp.length) :
+    k.validateChannel ch = coversParts tp tw rp rw :=
+  Security.validate_covers_gen k tp tw rp rw ch hpath hhash hch htw hrw hrne hlen hnh hsup hcol hrh hcolp
+
+/-- non-vacuity of `validate_covers_exact`: a concrete key, target a/+/b/#/ and request a/x/b/c/
+meet every hypothesis (the hash hypotheses by evaluation: the compared strings are equal) -/
+example : ∃ k, Key.setTarget (List.replicate 24 0) [97, 47, 43, 47, 98, 47, 35, 47] = .ok k ∧
+    k.validateChannel (parseChannel [107, 47, 97, 47, 120, 47, 98, 47, 99, 47]) = true ∧
+    covers [97, 47, 43, 47, 98, 47, 35, 47] [97, 47, 120, 47, 98, 47, 99, 47] = true := by
+  refine ⟨_, rfl, ?_, ?_⟩ <;> decide
 
 /-- `SetTarget` writes exactly the fields `validate_covers` reads (so the two compose for
 every key produced by key generation). -/
